@@ -140,6 +140,7 @@ func VerifC12Enqueue() {
 			vrt.Assert("C12.enqueue.refused-changes-nothing", sameItem(pre[i], post[i]))
 		}
 		vrt.Assert("C12.enqueue.refused-stores-nothing", len(w.s.items) == c.active+c.retained-0 && (exists || w.s.items[id] == nil))
+		vrt.Assert("C02.inv.enqueue-refused", w.inv())
 		limit := itemLimit
 		if limit == 0 {
 			limit = 1000
@@ -257,6 +258,7 @@ func VerifC12EnqueueBatch() {
 			vrt.Assert("C12.batch.refused-changes-nothing", sameItem(pre[i], post[i]))
 		}
 		vrt.Assert("C12.batch.refused-stores-nothing", len(w.s.items) == c.active+c.retained)
+		vrt.Assert("C02.inv.batch-refused", w.inv())
 		return
 	}
 	vrt.Cover("batch.stored")
